@@ -193,10 +193,13 @@ Walk(s, n, rev) ==
             \o << <<n, POST>> >>
 FullWalk(s, rev) == IF s.root = 0 THEN <<>> ELSE Walk(s, s.root, rev)
 
+\* what the driver's visit function returns at its stop-th call: any non-zero value must stop the walk and
+\* come back unchanged, so the values vary in sign and size (engine.h e_stopval)
+StopVal(k) == CASE k % 3 = 1 -> 100 + k [] k % 3 = 2 -> 0 - (100 + k) [] OTHER -> IF k % 2 = 1 THEN 1 ELSE 0 - 1
 \* the driver's visit function returns 100+stop at its stop-th call
 ForeachOp(s, rev, stop) ==
     LET w == FullWalk(s, rev)
-    IN IF stop > 0 /\ stop <= Len(w) THEN [ev |-> SubSeq(w, 1, stop), ret |-> 100 + stop]
+    IN IF stop > 0 /\ stop <= Len(w) THEN [ev |-> SubSeq(w, 1, stop), ret |-> StopVal(stop)]
        ELSE [ev |-> w, ret |-> 0]
 
 ClearOp(s) ==
@@ -292,7 +295,7 @@ WalkFullOK(M, ev, rev) ==
     /\ \A n \in M : Idx(ev, n, MID) # {} => Idx(ev, n, POST) # {}
 ForeachContract(M, rev, stop, ev, ret) ==
     IF stop > 0 /\ Len(ev) >= stop
-    THEN Len(ev) = stop /\ ret = 100 + stop /\ WalkPrefixOK(M, ev, rev)
+    THEN Len(ev) = stop /\ ret = StopVal(stop) /\ WalkPrefixOK(M, ev, rev)
     ELSE ret = 0 /\ WalkFullOK(M, ev, rev)
 ClearContract(M, ev) == NoDup(ev) /\ SeqSet(ev) = M
 HeightContract(s, mn, mx) ==
